@@ -262,7 +262,7 @@ class TlSchemas:
                             attach_len = 1
                             byte_len = int.from_bytes(data[i:i+1], 'little')
                             i += 1
-                        if ((not self._auto_deserialize) or
+                        if ((not self._auto_deserialize) or type_ == 'string' or  # a string is text, never a nested object
                                 (schema is not None and
                                  schema.name in self.untouchables
                                  and field in self.untouchables[schema.name])):
